@@ -29,7 +29,7 @@ m={
              "kind_free_text":"Lean 4 models and kernel-checked theorems (lean/Flax), tied to /repo on every run by a differential correspondence check driven through a compiled line-protocol driver"}],
  "checks":checks,
  "not_applicable":na,
- "notes":"Properties under not_applicable with reason 'pending' are not 'technique does not apply': their model/proofs/correspondence are not finished yet (DESIGN.md §8).",
+ "notes":"All 20 properties are claimed; not_applicable is empty. Every check = lake build of its theorems + axiom audit (exit 2 if that fails: infrastructure, not a verdict) + differential correspondence of the Lean model against /repo's working tree + property oracles on the implementation. KNOWN-FINDING lines come from known_findings.json (committed, never written at run time). Partial levels (C07 derivatives, C12/C13 floating point) are stated per check in level_claimed and in DESIGN.md §10.4/§10.5. VERIF_SEED selects the exploration; VERIF_REPO (optional) points the checks at a scratch copy of flax/ instead of /repo.",
 }
 json.dump(m,open('/verif/MANIFEST.json','w'),indent=1)
 print(len(checks),'claimed',len(na),'unclaimed')
